@@ -156,12 +156,12 @@ func (r *FnRun) callStatic(st *State, fr *frame, instr ssa.Instruction, f *ssa.F
 		return
 	}
 	fc := r.eng.contractFor(f)
-	if fc != nil && binds == nil {
+	if fc != nil {
 		if fc.Iterator {
 			r.rangeLoop(st, fr, instr, f, fc, args, k)
 			return
 		}
-		r.callContract(st, fr, instr, f, fc, r.eng.contractSetFor(f), args, k)
+		r.callContractB(st, fr, instr, f, fc, r.eng.contractSetFor(f), binds, args, k)
 		return
 	}
 	repo := r.eng.isRepoPkg(pkgOfFn(f))
@@ -310,12 +310,21 @@ func (r *FnRun) applyAssigns(st *State, fc *FuncContract) {
 }
 
 func (r *FnRun) callContract(st *State, fr *frame, instr ssa.Instruction, f *ssa.Function, fc *FuncContract, cs *ContractSet, args []*V, k func(*State, *V)) {
+	r.callContractB(st, fr, instr, f, fc, cs, nil, args, k)
+}
+
+func (r *FnRun) callContractB(st *State, fr *frame, instr ssa.Instruction, f *ssa.Function, fc *FuncContract, cs *ContractSet, binds []*V, args []*V, k func(*State, *V)) {
 	callee := r.eng.relName(f)
 	st.callOrd[callee]++
 	ord := st.callOrd[callee]
 	anchor := fmt.Sprintf("call %s#%d", callee, ord)
 	pkg := pkgOfFn(f)
 	vars := bindNames(fc, f, f.Signature, f.Signature.Recv() != nil, args)
+	for i, fv := range f.FreeVars {
+		if i < len(binds) {
+			vars[fv.Name()] = r.freeVarContent(st, fv, binds[i])
+		}
+	}
 	r.calleesByContract[callee] = true
 	// ghost parameters: witnesses supplied by the caller's contract, else unconstrained
 	for _, gp := range fc.GhostParams {
@@ -467,11 +476,7 @@ func (r *FnRun) rangeLoop(st *State, fr *frame, instr ssa.Instruction, f *ssa.Fu
 		r.oblige(st, "inv-established", lbl(c, fmt.Sprintf("rangeloop%d", ord)), c.Tags, t, fmt.Sprintf("%s:%d", fr.fc.File, c.Line), fmt.Sprintf("rangeloop %d", ord))
 	}
 	ms := newModset()
-	for _, b := range cb.Fn.Blocks {
-		for _, ins := range b.Instrs {
-			r.modsetInstr(ms, ins, 1)
-		}
-	}
+	r.modsetStatic(ms, cb.Fn, 1)
 	if ms.fams[h.fam] {
 		r.abstractNote(st, "iterator callback modifies the iterated view")
 	}
@@ -1014,6 +1019,19 @@ func (r *FnRun) doGo(st *State, fr *frame, x *ssa.Go) {
 	for _, a := range args {
 		ids = append(ids, identityLeaves(a)[0])
 	}
+	if mc, ok := c.Value.(*ssa.MakeClosure); ok {
+		cv := r.val(st, mc)
+		for _, b := range cv.Binds {
+			func() {
+				defer func() {
+					if recover() != nil {
+						ids = append(ids, "0")
+					}
+				}()
+				ids = append(ids, identityLeaves(st.load(st.derefLoc(b)))[0])
+			}()
+		}
+	}
 	if len(ids) > 8 {
 		ids = ids[:8]
 	}
@@ -1065,7 +1083,7 @@ func (r *FnRun) execSendOn(st *State, fr *frame, ins ssa.Instruction, chv ssa.Va
 	}
 	ids := []string{ch.S}
 	for _, l := range leaves(msg) {
-		if len(ids) < 7 {
+		if len(ids) < 8 {
 			ids = append(ids, l)
 		}
 	}
@@ -1096,6 +1114,7 @@ func (r *FnRun) recvValue(st *State, fr *frame, ins ssa.Instruction, chv ssa.Val
 	ev := &EvalCtx{run: r, st: st}
 	out := ev.iteV(ok, v, st.zero(et))
 	st.emit("recv", ch.S, sIte(ok, "1", "0"))
+	st.writeLeaf("nrecv", []string{ch.S}, "Int", "(+ "+sSel(st.comp("nrecv", 1, "Int"), ch.S)+" "+sIte(ok, "1", "0")+")")
 	return out, ok
 }
 
@@ -1193,4 +1212,18 @@ func (r *FnRun) execSelect(st *State, fr *frame, b *ssa.BasicBlock, i int, x *ss
 // assumed afterwards, so that a (known) discipline violation does not make the rest of the path vacuous.
 func isDiscipline(e *Expr) bool {
 	return e != nil && e.Op == "call" && e.Name == "cbfree"
+}
+
+// freeVarContent: the value a captured variable denotes in contracts – its contents, or for variables of an
+// opaque library type (sync.WaitGroup, ...) the identity of the variable itself.
+func (r *FnRun) freeVarContent(st *State, fv *ssa.FreeVar, ptr *V) (out *V) {
+	if pt, ok := fv.Type().Underlying().(*types.Pointer); ok && r.eng.opaque(pt.Elem()) {
+		return ptr
+	}
+	defer func() {
+		if recover() != nil {
+			out = ptr
+		}
+	}()
+	return st.load(st.derefLoc(ptr))
 }
